@@ -81,7 +81,7 @@ func (inflectFam) Exec(c core.CaseIn, rng *rand.Rand, emit func(cas, conc, obs a
 		alone = input
 	} else {
 		alone = styled(ic.Word, ic.Style)
-		lead = strings.ReplaceAll(ic.Prefix, "<NL>", "first line\nthe") + ic.Boundary
+		lead = strings.NewReplacer("<NL>", "first line\nthe", "<IDOT>", "\u0130stanbul", "<KELVIN>", "\u212a", "<ASTROKE>", "\u023a\u023a\u023a\u023a", "<BADUTF8>", "\xff\xfe").Replace(ic.Prefix) + ic.Boundary
 		input = lead + alone
 		law = ic.Kind == "irregular" && ic.Boundary != ""
 	}
